@@ -127,6 +127,8 @@ def expect_qw(shape, qtn, axis, gs, optname):
         if axis is not None and (axis == nd - 1 or axis == -nd) and nd >= 1:
             return "either"
         return "must_raise"
+    if optname in ("Bare", "PerTensor", "NotAnOptimizer"):
+        return "must_raise"  # neither a SymmetricOptimizer nor an AffineOptimizer
     if low:
         if optname == "Absmax":
             return "must_raise"
@@ -145,12 +147,23 @@ def expect_qw(shape, qtn, axis, gs, optname):
 
 def part_quantize_weight(ctx, oq, k0):
     k = k0
-    opts = {"default": None, "Absmax": oq.AbsmaxOptimizer(), "Max": oq.MaxOptimizer()}
+    class PerTensor(oq.Optimizer):
+        """Derives from the public base class directly: belongs to neither family quantize_weight accepts."""
+
+        def __call__(self, base, bits, axis, group_size=None):
+            s = base.abs().max() / (2 ** (bits - 1) - 1)
+            return s if bits == 8 else (s, torch.zeros((), dtype=torch.int8))
+
+    NEITHER = ("Bare", "PerTensor", "NotAnOptimizer")
+    opts = {"default": None, "Absmax": oq.AbsmaxOptimizer(), "Max": oq.MaxOptimizer(), "Bare": oq.Optimizer(), "PerTensor": PerTensor(),
+            "NotAnOptimizer": "absmax"}
     for shape in SHAPES:
         numel = int(np.prod(shape))
         per_max = max(numel // shape[0], numel // shape[-1])
         gss = [None] + list(range(1, per_max + 3)) + [2 * numel]
         for qtn, axis, gs, optname in itertools.product(QTYPES, AXES, gss, opts):
+            if optname in NEITHER and gs not in (None, 1, 2):
+                continue
             k += 1
             if not ctx.mine(k):
                 continue
@@ -171,7 +184,7 @@ def part_quantize_weight(ctx, oq, k0):
                 ctx.violation(dict(sig, kind="valid_configuration_rejected"), dict(desc=desc))
             if st == "ok":
                 if exp == "must_raise":
-                    why = "axis" if axis not in (0, -1) else ("optimizer_family" if optname in ("Absmax", "Max") and (
+                    why = "axis" if axis not in (0, -1) else ("optimizer_family" if optname in ("Bare", "PerTensor", "NotAnOptimizer") or optname in ("Absmax", "Max") and (
                         (optname == "Absmax") == (qtn in ("qint2", "qint4"))) else "group_size")
                     ctx.violation(dict(sig, kind="unsupported_configuration_accepted", why=why), dict(desc=desc))
                     continue
